@@ -121,11 +121,23 @@ def R1(text, cfg=None):
 
 # R2  for x in E {  (E a slice / &Vec named in cfg['slices'])  -> index loop
 def R2(text, cfg=None):
-    slices = (cfg or {}).get("slices", [])
+    """cfg['slices']: names of slices / vectors iterated by reference; an entry `name:expr` says how the
+    collection is passed to vx_at (e.g. `pack_list:pack_list.as_slice()` for a local Vec).
+    cfg['slices_while']: same, but rewritten to a `while` loop with the index incremented before the body,
+    so that `continue` keeps its meaning (installed Verus: no `continue` in for-loops)."""
     inst_all = []
-    for e in slices:
+    for ent in (cfg or {}).get("slices", []):
+        e, _, how = ent.partition(":")
+        how = how or e
         pat = r"for\s+(" + ID + r")\s+in\s+&?\s*" + re.escape(e) + r"(?:\s*\.\s*iter\s*\(\s*\))?\s*\{"
-        text, inst = _sub(pat, lambda m, e=e: "for idx_%s in 0..%s.len() { let %s = vx_at(%s, idx_%s);" % (m.group(1), e, m.group(1), e, m.group(1)), text, "R2")
+        text, inst = _sub(pat, lambda m, e=e, how=how: "for idx_%s in 0..%s.len() { let %s = vx_at(%s, idx_%s);" % (m.group(1), e, m.group(1), how, m.group(1)), text, "R2")
+        inst_all += inst
+    for ent in (cfg or {}).get("slices_while", []):
+        e, _, how = ent.partition(":")
+        how = how or e
+        pat = r"for\s+(" + ID + r")\s+in\s+&?\s*" + re.escape(e) + r"(?:\s*\.\s*iter\s*\(\s*\))?\s*\{"
+        text, inst = _sub(pat, lambda m, e=e, how=how: "let mut idx_%s: usize = 0; while idx_%s < %s.len() { let %s = vx_at(%s, idx_%s); idx_%s += 1;" % (
+            m.group(1), m.group(1), e, m.group(1), how, m.group(1), m.group(1)), text, "R2")
         inst_all += inst
     return text, inst_all
 
@@ -245,10 +257,21 @@ def R16(text, cfg=None):
     return rewrite_calls(text, r"(" + PATH + r")\s*\.\s*as_ref\s*\(\s*\)\s*\.\s*is_none_or\b", b, "R16")
 
 
-def generic(pairs, tag):
-    """build a rule from a list of (regex, replacement) pairs"""
+def generic(pairs, tag, calls=()):
+    """build a rule from (regex, replacement) pairs and (call-head regex, template) pairs; in a template
+    {args} is the argument list, {0} {1} .. single arguments, {g1} {g2} .. groups of the head regex"""
     def rule(text, cfg=None):
         inst_all = []
+        for pat, tmpl in calls:
+            def b(m, args, tmpl=tmpl):
+                out = tmpl.replace("{args}", ", ".join(args))
+                for i, a in enumerate(args):
+                    out = out.replace("{%d}" % i, a)
+                for gi in range(1, (m.re.groups or 0) + 1):
+                    out = out.replace("{g%d}" % gi, m.group(gi) or "")
+                return out
+            text, inst = rewrite_calls(text, pat, b, tag)
+            inst_all += inst
         for pat, rep in pairs:
             text, inst = _sub(pat, rep, text, tag, flags=re.S)
             inst_all += inst
@@ -280,4 +303,16 @@ def R20(text, cfg=None):
     return _sub(pat, lambda m: "if let Some(%s__r) = %s { let %s = *%s__r;" % (m.group(1), m.group(2), m.group(1), m.group(1)), text, "R20")
 
 
-RULES = {"R2b": R2b, "R18": R18, "R20": R20, "R1": R1, "R2": R2, "R3": R3, "R4": R4, "R5": R5, "R7": R7, "R15": R15, "R16": R16}
+# R18b  for (k, v) in M {  (map iteration; M given in cfg['maps'] with the snapshot call that replaces it)
+#       -> index loop over an ARBITRARY duplicate-free enumeration of the entries
+def R18b(text, cfg=None):
+    inst_all = []
+    for expr, snap in (cfg or {}).get("maps", {}).items():
+        pat = r"for\s*\(\s*(" + ID + r")\s*,\s*(\([^()]*\)|" + ID + r")\s*\)\s*in\s*" + re.escape(expr).replace(r"\ ", r"\s*") + r"\s*\{"
+        text, inst = _sub(pat, lambda m, snap=snap: "let ents_%s = %s; for idx_%s in 0..ents_%s.len() { let (%s, %s) = ents_%s[idx_%s];" % (
+            m.group(1), snap, m.group(1), m.group(1), m.group(1), m.group(2), m.group(1), m.group(1)), text, "R18")
+        inst_all += inst
+    return text, inst_all
+
+
+RULES = {"R18b": R18b, "R2b": R2b, "R18": R18, "R20": R20, "R1": R1, "R2": R2, "R3": R3, "R4": R4, "R5": R5, "R7": R7, "R15": R15, "R16": R16}
